@@ -37,6 +37,10 @@ def gen_settings(rng, fault_mode):
         s['spg_nonmonotone_iter_limit_to_enforce_decrease'] = int(rng.integers(1, 6))
     if rng.random() < 0.1:
         s['use_incremental_objective'] = True
+    if rng.random() < 0.12:
+        # coarse tolerance together with an initial radius below it (admissible: tr_size and tol are independent)
+        s['tol'] = float(10.0 ** rng.uniform(-5, -3))
+        s['tr_size'] = float(s['tol'] * 10.0 ** rng.uniform(-2, 0))
     if fault_mode and rng.random() < 0.6:
         r = rng.random()
         if r < 0.35:
